@@ -160,11 +160,112 @@ def run(ck, model_ok):
                                                            'ops': [list(o) for o in ops], 'at': j},
                                 repr(mo)[:400], repr(g)[:400], 'model and implementation disagree')
                         break
-    ck.notes += ['content on disk does not change during a history', 'a suspended iteration is never resumed after another operation']
+    run_changing(ck)
+    ck.notes += ['content on disk does not change during a modelled history; a second family of histories (oracle only) changes the disk / the file list between operations',
+                 'a suspended iteration is never resumed after another operation']
+
+
+def path_of(cp, i):
+    return os.path.join(cp, *sl.relpath_of(i))
+
+
+def changing_history(root, sizes, L, damage, ops):
+    """run one history with environment changes; -> list of (op, expected (fresh object), observed (held object))"""
+    from torf import _stream
+    t, cp, on_disk, _ = build(root, sizes, L, damage)
+    contents = sl.gen_content(sizes)
+    bad = []
+    tfs = _stream.TorrentFileStream(t, content_path=cp)
+    keep = []
+    try:
+        for op in ops:
+            if op[0] == 'repair':
+                os.makedirs(os.path.dirname(path_of(cp, op[1])), exist_ok=True)
+                open(path_of(cp, op[1]), 'wb').write(contents[op[1]])
+                continue
+            if op[0] == 'drop-first':
+                files = t.metainfo['info']['files']
+                if len(files) > 1:
+                    del files[0]
+                continue
+            canon = sl.Canon(t, content_path=cp)
+
+            def run_on(stream):
+                if op[0] == 'iter':
+                    gen = stream.iter_pieces()
+                    keep.append(gen)
+                    items = []
+                    try:
+                        for k, it in enumerate(gen):
+                            items.append(canon.item(it))
+                            if op[1] > 0 and k + 1 >= op[1]:
+                                break
+                        return ('ok', items)
+                    except Exception as e:  # noqa
+                        return ('err', sl.canon_exc(e), len(items))
+                return sl.impl_call(stream.get_piece if op[0] == 'get' else stream.verify_piece, op[1])
+            out = run_on(tfs)
+            with _stream.TorrentFileStream(t, content_path=cp) as fresh:
+                exp = run_on(fresh)
+            if out != exp:
+                bad.append((op, exp, out))
+                break
+    finally:
+        for g in keep:
+            g.close()
+        tfs.close()
+    return bad
+
+
+def run_changing(ck):
+    """Histories in which the environment changes between two operations on the SAME stream object: a damaged file is
+    repaired or the first file is taken out of the torrent.  "Depends only on the torrent, the content on disk and the
+    arguments": every reading operation must give what a FRESH stream object gives at that moment.
+    (Files are never damaged or removed while the stream may hold an open handle to them: reading an unlinked file through
+    a cached handle is the operating system's behaviour, not a property of torf.)"""
+    rng = ck.rng
+    n = 80 if ck.tier == 'quick' else 1500
+    with Scratch() as root:
+        for hi in range(n):
+            L = rng.choice([2, 3, 4, 4, 8])
+            nf = rng.choice([2, 3, 4, 5, 8, 13])
+            sizes = tuple(rng.choice([1, 2, L - 1 or 1, L, L + 1, 2 * L + 1, 3 * L]) for _ in range(nf))
+            damage = {rng.randrange(nf): rng.choice(['missing', 'short', 'long'])} if rng.random() < 0.7 else {}
+            ops = []
+            for _ in range(rng.randint(3, 9)):
+                r = rng.random()
+                npieces = max(1, -(-sum(sizes) // L))
+                if r < 0.3:
+                    ops.append(('iter', rng.choice([-1, -1, rng.randint(1, npieces)])))
+                elif r < 0.5:
+                    ops.append(('get', rng.randrange(npieces)))
+                elif r < 0.65:
+                    ops.append(('verify', rng.randrange(npieces)))
+                elif r < 0.85:
+                    ops.append(('repair', rng.choice(sorted(damage)) if damage else rng.randrange(nf)))
+                else:
+                    ops.append(('drop-first',))
+            ck.case(('changing', sizes, L, tuple(sorted(damage.items())), tuple(ops)))
+            for op in ops:
+                ck.count('changing-op:' + op[0])
+            d = os.path.join(root, 'h%d' % hi)
+            os.makedirs(d)
+            for op, exp, out in changing_history(d, sizes, L, damage, ops):
+                case = {'changing': True, 'sizes': list(sizes), 'L': L, 'damage': {str(k): v for k, v in damage.items()}, 'ops': [list(o) for o in ops], 'at': list(op)}
+                ck.fail('oracle', f'history-dependent:{op[0]}', case, repr(exp)[:400], repr(out)[:400],
+                        'after a change of the content on disk / the file list the result differs from the same operation on a fresh stream object')
+
+
+def replay_changing(c):
+    with Scratch() as root:
+        bad = changing_history(root, tuple(c['sizes']), c['L'], {int(k): v for k, v in c['damage'].items()}, [tuple(o) for o in c['ops']])
+    return not bad, [{'op': list(op), 'fresh': repr(exp)[:300], 'observed': repr(out)[:300]} for op, exp, out in bad] or 'equal to a fresh object'
 
 
 def replay(rp):
     c = rp['case']
+    if c.get('changing'):
+        return replay_changing(c)
     sizes, L = tuple(c['sizes']), c['L']
     damage = {int(k): v for k, v in c['damage'].items()}
     ops = [tuple(o) for o in c['ops']]
